@@ -14,6 +14,14 @@ def kids(n):
     """Direct child expression/statement nodes (patterns excluded)."""
     if not isinstance(n, dict):
         return
+    if n.get("k") in ("Block", "Loop"):
+        for v in n.get("stmts") or ():
+            if isinstance(v, dict) and "k" in v:
+                yield v
+        v = n.get("expr")
+        if isinstance(v, dict) and "k" in v:
+            yield v
+        return
     for k in CHILD_KEYS:
         v = n.get(k)
         if isinstance(v, dict) and "k" in v:
@@ -908,3 +916,16 @@ def _pat_matches(pk_, sc):
             except TypeError:
                 return False
     return False
+
+
+def subterms(t):
+    """Every nested tuple of a normal form (terms, argument tuples, arm tuples...)."""
+    if isinstance(t, tuple):
+        yield t
+        for x in t:
+            if isinstance(x, tuple):
+                yield from subterms(x)
+
+
+def contains(t, sub):
+    return any(x == sub for x in subterms(t))
